@@ -101,6 +101,30 @@ ParseIntOK(txt, ty, out) ==
                \/ (signed /\ t[1] = 45 /\ IsZero(v) /\ ~ty.s /\ out.k = "err")     \* "-0" for an unsigned type: unspecified
           ELSE out.k = "err"
 
+(* text -> decimal(p, s): [sign] digits [ . digits ] denotes u / 10^k exactly; the cast is then the decimal -> decimal cast of
+   that value (rounding half away from zero when k > s, error when the result needs more than p digits). Malformed text
+   must be an error. Forms some engines accept and others reject - surrounding spaces, a leading '+', a missing integer
+   or fraction part ('.5', '1.'), an exponent - are unspecified: a correct value or an error are both admitted.      *)
+TextToDecOK(txt, p, s, out) ==
+  LET t == StripR(StripL(txt))
+      signed == t # <<>> /\ t[1] \in {43, 45}
+      body == IF signed THEN Tail(t) ELSE t
+      dots == {i \in DOMAIN body : body[i] = 46}
+      ip == IF dots = {} THEN body ELSE SubSeq(body, 1, (CHOOSE i \in dots : TRUE) - 1)
+      fp == IF dots = {} THEN <<>> ELSE SubSeq(body, (CHOOSE i \in dots : TRUE) + 1, Len(body))
+      digitsOnly(q) == \A i \in DOMAIN q : IsDigit(q[i])
+      wellformed == (\A i \in dots, j \in dots : i = j) /\ digitsOnly(ip) /\ digitsOnly(fp) /\ (ip # <<>> \/ fp # <<>>)
+      strict == wellformed /\ t = txt /\ ~(signed /\ t[1] = 43) /\ ip # <<>> /\ (dots = {} \/ fp # <<>>)
+      u == Mk(signed /\ t[1] = 45, DigitsVal(ip \o fp).mag)
+      k == Len(fp)
+      (* digits beyond the target scale: the parser either rounds half away from zero (like decimal -> decimal) or drops them
+         (truncation toward zero): ONE fixed rule per conversion kind is what the property asks, both are admitted here *)
+      trunc == IF k <= s THEN u ELSE Mk(u.neg, DigitsVal(SubSeq(ip \o fp, 1, Len(ip) + s)).mag)
+      conv == DecToDecOK(u, k, p, s, out) \/ (k > s /\ DecToDecOK(trunc, s, p, s, out))
+  IN IF ~wellformed THEN out.k = "err" \/ (\E i \in DOMAIN body : body[i] \in {69, 101}) \* an exponent form: unspecified
+     ELSE IF strict THEN conv
+     ELSE out.k = "err" \/ conv
+
 (* --------------------------------- dates --------------------------------- *)
 (* proleptic Gregorian civil date -> days since 1970-01-01 (native integers suffice) *)
 IsLeap(y) == (y % 4 = 0 /\ y % 100 # 0) \/ y % 400 = 0
